@@ -36,6 +36,9 @@ def scenarios(ctx):
         S("file.plain.flat.store_new", "file", flat=True, gzip=False, op="store_new"),
         S("file.plain.flat.store_overwrite", "file", flat=True, gzip=False, op="store_overwrite"),
         S("file.gz.cseg.store_overwrite", "file", encoding="compressed_segmentation", op="store_overwrite"),
+        # lossy codec: never gzipped, chunks larger than the JPEG header; a partial file must
+        # not decode to other values than the complete one would
+        S("file.jpeg.store_new", "file", encoding="jpeg", op="store_new", cs=8),
         S("file.gz.deep.fetch", "file", op="fetch"),
         S("file.plain.flat.fetch", "file", flat=True, gzip=False, op="fetch"),
         S("file.store_info", "file", op="store_info"),
@@ -57,6 +60,7 @@ def scenarios(ctx):
             S("file.gz.flat.store_new", "file", flat=True, gzip=True, op="store_new"),
             S("file.plain.deep.store_overwrite", "file", flat=False, gzip=False, op="store_overwrite"),
             S("file.plain.cseg.store_new", "file", gzip=False, encoding="compressed_segmentation", op="store_new"),
+            S("file.jpeg.flat.store_overwrite", "file", encoding="jpeg", flat=True, op="store_overwrite", cs=16),
             S("sharded.mem.gzip.session", "sharded", op="store_new", strategy="in memory", enc="gzip"),
             S("sharded.disk.raw.session", "sharded", op="store_new", strategy="on disk", enc="raw"),
             S("sharded.cseg.session", "sharded", op="store_new", strategy="on disk", enc="raw",
